@@ -202,20 +202,20 @@ Lemma G_initial A0 s k j : ps_ops s = [] -> G A0 s k j = cell A0 (dat s k) (cat 
 Proof. intros H. unfold G, Bmat, sops. rewrite H. reflexivity. Qed.
 
 (* ---- without HDPC rows ---- *)
-Lemma no_hdpc_init m A L P M W r :
+Lemma no_hdpc_init_state m A L P M W s :
   dims A M W -> 0 < M -> bin_mat A -> L = W -> P <= W ->
-  pi_run_no_hdpc m A L P = Ok r ->
-  exists s0, execute m s0 = Ok r /\ W <= M /\ wf_mat (N.to_nat W) A /\
+  ps_new_common m A L P = Ok s ->
+  let s0 := s in W <= M /\ wf_mat (N.to_nat W) A /\
     (forall st, st_inv (ps_A s0) st (ps_i s0) (M - 0) (ps_i s0) (W - ps_u s0) -> fp_inv A M W 0 s0 st) /\
     ps_i s0 = 0 /\ ps_u s0 = P /\ ps_W s0 = W /\ ps_A s0 = A /\ lenN (hd_rows s0) = 0.
 Proof.
-  intros D HM0 Bin HL HP H. unfold pi_run_no_hdpc in H. oinvas H as s Es.
+  intros D HM0 Bin HL HP Es. cbv zeta.
   pose proof (dims_wf _ _ _ D (bin_bytes _ Bin)) as Wf. destruct D as [DL DR].
   assert (Ehd : lenN (hd [] A) = W).
   { destruct A as [|r0 A']; [cbn in DL; lia|]. inversion DR as [|? ? Hr0 ?]. cbn. exact Hr0. }
   unfold ps_new_common in Es. rewrite Ehd, DL in Es. omon Es. apply N.leb_le in As. inversion Es; subst s. clear Es.
   set (s0 := mkPS A W None a (seqN 0 W) (seqN 0 M) 0 P L []) in *.
-  exists s0. split; [exact H|]. split; [exact As|]. split; [exact Wf|].
+  split; [exact As|]. split; [exact Wf|].
   split; [|repeat split; reflexivity].
   intros st St. apply mkFP; cbn [s0 ps_A ps_W ps_hd ps_c ps_d ps_i ps_u ps_L ps_ops hd_rows] in *.
   - constructor; cbn; [apply permN_seqN | apply bin_bytes, Bin | exact I | reflexivity].
@@ -235,6 +235,17 @@ Proof.
   - intros k j Hk. lia.
   - intros k j Hk Hj. lia.
   - exact St.
+Qed.
+
+Lemma no_hdpc_init m A L P M W r :
+  dims A M W -> 0 < M -> bin_mat A -> L = W -> P <= W ->
+  pi_run_no_hdpc m A L P = Ok r ->
+  exists s0, execute m s0 = Ok r /\ W <= M /\ wf_mat (N.to_nat W) A /\
+    (forall st, st_inv (ps_A s0) st (ps_i s0) (M - 0) (ps_i s0) (W - ps_u s0) -> fp_inv A M W 0 s0 st) /\
+    ps_i s0 = 0 /\ ps_u s0 = P /\ ps_W s0 = W /\ ps_A s0 = A /\ lenN (hd_rows s0) = 0.
+Proof.
+  intros D HM0 Bin HL HP H. unfold pi_run_no_hdpc in H. oinvas H as s Es.
+  exists s. split; [exact H|]. exact (no_hdpc_init_state _ _ _ _ _ _ _ D HM0 Bin HL HP Es).
 Qed.
 
 Theorem pi_run_no_hdpc_sound m A L P ops M W :
@@ -381,18 +392,18 @@ Proof.
   - lia.
 Qed.
 
-Lemma hdpc_init m S H A hdpc L P M W r :
+Lemma hdpc_init_state m S H A hdpc L P M W s :
   dims A M W -> 0 < M -> bin_mat A -> dims hdpc H W -> bytes_mat hdpc -> S + 2 * H <= M ->
   L = W -> P <= W ->
-  pi_run m S H A hdpc L P = Ok r ->
-  exists s0, execute m s0 = Ok r /\ W <= M /\ wf_mat (N.to_nat W) (full_matrix S H A hdpc) /\
+  ps_new m S H A hdpc L P = Ok s ->
+  let s0 := s in W <= M /\ wf_mat (N.to_nat W) (full_matrix S H A hdpc) /\
     lenN (full_matrix S H A hdpc) = M /\
     (forall st, st_inv (ps_A s0) st (ps_i s0) (M - H) (ps_i s0) (W - ps_u s0) ->
                 fp_inv (full_matrix S H A hdpc) M W H s0 st) /\
     ps_i s0 = 0 /\ ps_u s0 = P /\ ps_W s0 = W /\ lenN (ps_A s0) = M /\ lenN (hd_rows s0) = H /\
     (forall k, k < M -> rowN (ps_A s0) k = rowN A (sigma S H M H k)).
 Proof.
-  intros D HM0 Bin Dh Bh HS HL HP H0. unfold pi_run in H0. oinvas H0 as s Es.
+  intros D HM0 Bin Dh Bh HS HL HP Es. cbv zeta.
   destruct D as [DL DR]. destruct Dh as [DhL DhR].
   set (A0 := full_matrix S H A hdpc).
   assert (A0len : lenN A0 = M) by (unfold A0; rewrite full_matrix_len; [exact DL | exact DhL | lia]).
@@ -418,7 +429,7 @@ Proof.
         destruct (N.ltb_spec k (M - H + 0)); cbn [andb]; lia.
     - intros k Hk. unfold dat. cbn [ps_d ps_A s00]. rewrite seqN_nth0 by exact Hk. reflexivity. }
   pose proof (new_loop m A S H M W P L HS _ 0 _ _ eq_refl ltac:(lia) I00 E0) as I1.
-  exists (set_hd a0 (Some hdpc)). split; [exact H0|]. split; [exact As|]. split; [exact Wf|]. split; [exact A0len|].
+  split; [exact As|]. split; [exact Wf|]. split; [exact A0len|].
   cbn [set_hd ps_A ps_W ps_hd ps_c ps_d ps_i ps_u ps_L ps_ops hd_rows].
   split; [|split; [apply (ni_i _ _ _ _ _ _ _ _ _ I1) | split; [apply (ni_u _ _ _ _ _ _ _ _ _ I1) |
            split; [apply (ni_W _ _ _ _ _ _ _ _ _ I1) | split; [apply (ni_dims _ _ _ _ _ _ _ _ _ I1) | split; [exact DhL|]]]]]].
@@ -460,6 +471,21 @@ Proof.
   - intros k j Hk. lia.
   - intros k j Hk Hj. lia.
   - rewrite (ni_i _ _ _ _ _ _ _ _ _ I1), (ni_u _ _ _ _ _ _ _ _ _ I1) in St. exact St.
+Qed.
+
+Lemma hdpc_init m S H A hdpc L P M W r :
+  dims A M W -> 0 < M -> bin_mat A -> dims hdpc H W -> bytes_mat hdpc -> S + 2 * H <= M ->
+  L = W -> P <= W ->
+  pi_run m S H A hdpc L P = Ok r ->
+  exists s0, execute m s0 = Ok r /\ W <= M /\ wf_mat (N.to_nat W) (full_matrix S H A hdpc) /\
+    lenN (full_matrix S H A hdpc) = M /\
+    (forall st, st_inv (ps_A s0) st (ps_i s0) (M - H) (ps_i s0) (W - ps_u s0) ->
+                fp_inv (full_matrix S H A hdpc) M W H s0 st) /\
+    ps_i s0 = 0 /\ ps_u s0 = P /\ ps_W s0 = W /\ lenN (ps_A s0) = M /\ lenN (hd_rows s0) = H /\
+    (forall k, k < M -> rowN (ps_A s0) k = rowN A (sigma S H M H k)).
+Proof.
+  intros D HM0 Bin Dh Bh HS HL HP H0. unfold pi_run in H0. oinvas H0 as s Es.
+  exists s. split; [exact H0|]. exact (hdpc_init_state _ _ _ _ _ _ _ _ _ _ D HM0 Bin Dh Bh HS HL HP Es).
 Qed.
 
 Theorem pi_run_sound m S H A hdpc L P ops M W :
